@@ -196,6 +196,27 @@ def _leaves(v, pre):
     return [(pre, v)]
 
 
+def _iteration_space(it):
+    """What a loop runs over, independently of whether it is written with an index: range(len(S)), range(0, len(S)) and
+    enumerate(S) run over S; range(0, n) is range(n)."""
+    at = it.as_atom()
+    if at is None:
+        return it
+    if at.func == "call:range" and at.args and all(isinstance(a, Rat) for a in at.args):
+        args = list(at.args)
+        if len(args) == 2 and args[0].is_zero():
+            args = [args[1]]
+        if len(args) == 1:
+            ln = args[0].as_atom("len")
+            if ln is not None and isinstance(ln.args[0], Rat):
+                return ln.args[0]
+            return form.apply("call:range", args)
+        return it
+    if at.func == "call:enumerate" and at.args and isinstance(at.args[0], Rat):
+        return at.args[0]
+    return it
+
+
 class Summary(object):
     def __init__(self):
         self.raw = []           # (category, label, parts (Rat / tuple / str), formula) before any splitting: for the case analysis
@@ -331,7 +352,7 @@ def _summarize(prog, qual, own=True):
     initial = set()
     for o in outs:
         pre = cform(o.conds)
-        if o.kind == "error":
+        if o.kind in ("error", "raise"):
             S.errors.append(pre)
             S.raw.append(("error", "", (), pre))
             continue
@@ -346,8 +367,38 @@ def _summarize(prog, qual, own=True):
                 S.raw.append(("attr", k, (cv,), pre))
                 for c, leaf in _leaves(cv, pre):
                     S.add(S.attrs.setdefault(k, {}), leaf, c)
+    # the signature (parameter names, defaults, decorators) and nested definitions are compared literally
+    sig = ast.dump(f.args) + "|" + ",".join(ast.dump(d) for d in f.decorator_list)
+    S.effects.setdefault(("signature", sig), []).append(("const", True))
+    S.raw.append(("effect", "signature", (sig,), ("const", True)))
+    for n_ in ast.walk(f):
+        if n_ is not f and isinstance(n_, (ast.FunctionDef, ast.ClassDef, ast.AsyncFunctionDef)):
+            dk = ast.dump(n_)
+            S.effects.setdefault(("nested", dk), []).append(("const", True))
+            S.raw.append(("effect", "nested", (dk,), ("const", True)))
+        elif isinstance(n_, (ast.AsyncWith, ast.Delete, ast.Global, ast.Nonlocal, ast.Await, ast.Yield, ast.YieldFrom, ast.Match)):
+            raise NotComparable("statement kind %s is outside the compared fragment" % type(n_).__name__)
+    # the iteration space of every loop is part of what the function does (the loop bodies are compared through their two generic
+    # iterations, which do not say how often or over what the loop runs)
+    for lp in ev.loops:
+        it = lp["iter"]
+        if isinstance(it, list) or (isinstance(it, Rat) and it.as_atom("pylist") is not None):
+            continue          # a python list whose elements are known: how it was built (and so its length) is visible in the values
+        if not isinstance(it, Rat):
+            continue
+        space = cn(_iteration_space(it))
+        pre = cform(lp.get("conds") or [])
+        kind = "while" if isinstance(lp["node"], ast.While) else "for"
+        key = ("loop", kind, lp.get("depth", 0), space.key())
+        S.effects.setdefault(key, []).append(pre)
+        S.raw.append(("effect", "loop:%s:%d" % (kind, lp.get("depth", 0)), (space,), pre))
     for e in ev.events:
         pre = cform(e["conds"])
+        if e["kind"] in ("assert", "raise", "with"):
+            v = e.get("value")
+            S.effects.setdefault((e["kind"], ckey(v, e["conds"])), []).append(pre)
+            S.raw.append(("effect", e["kind"], (craw(v),), pre))
+            continue
         if e["kind"] == "store":
             old = e.get("old")
             on_self = str(e.get("root") or "").startswith("self.")
